@@ -354,6 +354,7 @@ func setupResponder(t *rapid.T, r *mgrRig, log *[]string, label string, tid data
 		mfail(t, *log, "HARNESS/setup", "opening %s: %v", role, err)
 	}
 	r.toOngoing(c)
+	addVouchers(t, r, c, label)
 	for i := 1; i <= nblocks; i++ {
 		if _, err := r.report(c, int64(i), uint64(100*i), true); err != nil {
 			mfail(t, *log, "HARNESS/setup", "report %d: %v", i, err)
